@@ -51,11 +51,16 @@ def combos(profile, seed):
         for dt in dts:
             for kind, lay in [('tensor', 'C1'), ('tensor', 'S1'), ('tensor', 'C'), ('tensor', 'F'),
                               ('tensor', 'S'), ('discr', 'C1'), ('discr', 'C'), ('pspace', 'C1'),
-                              ('power', 'C1'), ('nested', 'C1')]:
-                if kind == 'power' and n % 2:
+                              ('power', 'C1'), ('nested', 'C1'), ('shapedt', 'C')]:
+                if kind in ('power', 'shapedt') and n % 2:
+                    continue
+                if kind == 'shapedt' and n == 50000:
+                    n_eff = 100000      # so that the per-component count alone is already in the BLAS regime
+                    c = (kind, n_eff, dt, lay)
+                    ess.append(c)
                     continue
                 c = (kind, n, dt, lay)
-                if n in (5, 102, 50000) and (kind, lay) in (('tensor', 'C1'), ('tensor', 'S1'), ('tensor', 'F')):
+                if n in (5, 102, 50000) and (kind, lay) in (('tensor', 'C1'), ('tensor', 'S1'), ('tensor', 'F'), ('shapedt', 'C')):
                     ess.append(c)
                 else:
                     rest.append(c)
